@@ -151,3 +151,8 @@ def run(ctx):
     sr_ = ctx.fn('ProtocolState::should_retain_high_priority_operation')
     flds_ = prims.self_fields_read(F, sr_, 0)
     ctx.ob('config' not in flds_ and not [c for c in sr_.calls() if 'offline_queue_policy' in c.nfn], 'the mandated exception: a queued PUBREL is retained at close whatever the offline policy says (its publish is in flight) (fields read: %s)' % sorted(flds_), 'exception|pubrel-no-policy', loc=sr_.loc(), rule='R-C15-4')
+    # ---- added after the mutation sweep: the configured values this property starts from reach the options (builder setters)
+    from . import shared as _sh
+    _ns = _sh.builder_setters(ctx, lambda b, m: b == 'MqttClientOptionsBuilder' and m == 'with_offline_queue_policy', 'R-C15-1', 'the configured offline-queue policy is the one in force')
+    if ctx.config == 'all':
+        ctx.floor(_ns, 1, 'builder setters this property depends on')
